@@ -90,7 +90,7 @@ def header_bytes(rng, near=None):
     return list(h)
 
 
-def rand_file(rng, big=False):
+def rand_file(rng, big=False, force_names=None, no_strip=False):
     """A well-formed code object far outside the model's bounds, as an abstract file."""
     mode = rng.choice(['rel', 'dyn', 'dyn', 'high'])
     secnames = ['.text']
@@ -101,9 +101,12 @@ def rand_file(rng, big=False):
         if rng.random() < 0.4:
             secnames.append(extra)
     rng.shuffle(secnames)
-    stripped = rng.random() < 0.1
+    stripped = rng.random() < 0.1 and not no_strip
     nk = 1 if stripped else rng.choice([1, 1, 2, 2, 3, 4, 6] + ([9, 14] if big else []))
     names = rng.sample(NAMES, min(nk, len(NAMES)))
+    if force_names:                                       # kernels every image of a session has in common
+        names = list(force_names) + [n for n in names if n not in force_names][:max(0, nk - len(force_names))]
+        nk = len(names)
     while len(names) < nk:
         names.append('gen_%d' % len(names))
     text, rod = [], []
@@ -248,14 +251,24 @@ def check_materialisation(trace, jobs):
     """The summary debug/elf gives of a written object must be the abstract file it was written from
     (guards elfw.go and the summariser: an error there is an infrastructure error, never a verdict)."""
     by_id = {j['id']: j for j in jobs if 'file' in j}
+    # sessions: the images the buffers must hold after each put / patch step, in order
+    expect = {j['id']: [st.get('file') or st.get('expect') for st in j['session'] if st['op'] in ('put', 'patch')]
+              for j in jobs if 'session' in j}
     n = 0
     for line in open(trace):
         if '"e":"File"' not in line[:80] and '"File"' not in line[:200]:
             continue
         r = json.loads(line)
-        if r.get('e') != 'File' or r['id'] not in by_id:
+        if r.get('e') != 'File':
             continue
-        f = by_id[r['id']]['file']
+        if r['id'] in expect:
+            f = expect[r['id']].pop(0)
+            if f is None:
+                continue
+        elif r['id'] in by_id:
+            f = by_id[r['id']]['file']
+        else:
+            continue
         secs = r['secs'][:len(f['secs'])]
         extra = [s['n'] for s in r['secs'][len(f['secs']):]]
         ok = len(secs) == len(f['secs']) and all(
@@ -286,13 +299,31 @@ def file_facts(frec):
 def account(ctx, trace, seen, counters):
     facts = None
     frec = None
+    per_buf = {}
+    loaded = {}          # (buffer, name) -> digest of the image it was last loaded from (this process history)
     for line in open(trace):
         r = json.loads(line)
         e = r.get('e')
+        if e == 'Reset':
+            per_buf = {}
+            if not r.get('session'):
+                loaded = {}
         if e == 'File':
             frec, facts = r, file_facts(r)
+            per_buf[r.get('buf', 0)] = (frec, facts)
             counters['files'] += 1
+            if 'buf' in r:
+                counters['buffer_rewrites'] = counters.get('buffer_rewrites', 0) + (1 if r.get('cv', 1) > 1 else 0)
+        elif e in ('Still', 'Scribble'):
+            counters[e] = counters.get(e, 0) + 1
         elif e in ('Load', 'Fatal', 'Panic'):
+            if r.get('buf', 0) in per_buf:
+                frec, facts = per_buf[r.get('buf', 0)]
+            if 'k' in r:
+                hk = (r['buf'], r.get('name'))
+                if hk in loaded and loaded[hk] != facts['digest']:
+                    counters['reloads_after_change'] = counters.get('reloads_after_change', 0) + 1
+                loaded[hk] = facts['digest']
             counters['evaluations'] += 1
             counters[e] = counters.get(e, 0) + 1
             key = (facts['digest'], r.get('name'))
@@ -325,7 +356,7 @@ def slim(recs, at=None):
 
 
 def mismatch_signature(bad, at, v2):
-    m = re.search(r'<<"MISMATCH", (\d+), \{([^}]*)\}>>', v2['res'].out)
+    m = re.search(r'<<\s*"MISMATCH",\s*(\d+),\s*\{([^}]*)\}\s*>>', v2['res'].out, flags=re.S)
     fields = sorted(x.strip().strip('"') for x in m.group(2).split(',')) if m else []
     ev = bad[min(at, len(bad)) - 1] if bad else {}
     sig = {'fields': ','.join(fields)}
@@ -364,13 +395,117 @@ def judge(ctx, trace, label):
         line = lines[0]
         st, recs = [(a, b) for a, b in starts if a <= line < a + len(b)][0]
         ev = recs[line - st]
+        fev = [r for r in recs[:line - st] if r.get('e') == 'File' and r.get('buf', 0) == ev.get('buf', 0)][-1]
         sig = {'kind': 'deviation', 'deviation': name, 'event': ev.get('e')}
         what = '%s: %s; first seen loading %r from %s (%d such loads in this trace): loader returned rsrc1=%s rsrc2=%s rsrc3=%s' % (
-            ctx.pid, DEV_WHAT.get(name, name), ev.get('name'), recs[1].get('path') or recs[1].get('id'), len(lines),
+            ctx.pid, DEV_WHAT.get(name, name), ev.get('name'), fev.get('path') or fev.get('id'), len(lines),
             ev['m']['r1'], ev['m']['r2'], ev['m']['r3'])
         ctx.report_failure(what, sig, {'driver': {'cmd': 'c13', 'label': label}, 'trace_spec': [TSPEC['dirs'], TSPEC['module'], TSPEC['cfg']],
-                                       'failing_index': line - st + 1, 'trace': [recs[0], recs[1], ev]})
+                                       'failing_index': 3, 'trace': [recs[0], fev, ev]})
 
+
+
+# ------------------------------------------------------------------ sessions: histories of loads through reused buffers
+SENDPGM = [0, 0, 129, 191]     # s_endpgm, little endian
+
+
+def kernel_size(f, name):
+    ti = [x['n'] for x in f['secs']].index('.text') + 1
+    return next(unlimbs(y['s']) for y in f['syms'] if y['n'] == name and y['x'] == ti)
+
+
+def sessions_from_behaviours(ctx, res, rng):
+    """TLC behaviours of HsacoSession -> session jobs (the environment steps, literally)."""
+    jobs, samples = [], []
+    for fn in sorted(os.listdir(res.dir)):
+        if not fn.startswith('beh_'):
+            continue
+        text = open(os.path.join(res.dir, fn)).read()
+        parts = tlaval._STATE_HDR.split(text)
+        bodies = [re.split(r'^\\\*.*$|^=+\s*$', parts[i], flags=re.M)[0] for i in range(2, len(parts), 2)]
+        steps, acts = [], []
+        for b in bodies:
+            ma = re.search(r'^/\\ act = (.*?)(?=^/\\ |\Z)', b, flags=re.M | re.S)
+            a = tlaval.parse_value(ma.group(1))
+            if a.get('a') in (None, 'Init'):
+                continue
+            acts.append(a)
+            if a['a'] in ('Put', 'Patch'):
+                mb = re.search(r'^/\\ bufs = (.*?)(?=^/\\ |\Z)', b, flags=re.M | re.S)
+                f = abs_from_tla(tlaval.parse_value(mb.group(1))[a['b']])
+                if a['a'] == 'Put':
+                    steps.append({'op': 'put', 'buf': a['b'], 'file': f, 'gap': rng.choice([0, 8, 48])})
+                else:
+                    steps.append({'op': 'patch', 'buf': a['b'], 'sym': a['name'], 'skip': a['skip'], 'bytes': SENDPGM, 'expect': f})
+            elif a['a'] == 'Load':
+                steps.append({'op': 'load', 'buf': a['b'], 'name': a['name'], 'api': rng.choice(['bytes', 'bytes', 'bytes', 'fs', 'elf'])})
+            elif a['a'] == 'Scribble':
+                steps.append({'op': 'scribble', 'k': a['k'] - 1})
+            steps.append({'op': 'check', 'k': -8})
+        if any(st['op'] == 'load' for st in steps):
+            jobs.append({'id': 'session/tlc/%s' % fn, 'session': steps})
+            samples.append(acts)
+    return jobs, samples
+
+
+def random_session(rng, sid, shipped, big=False):
+    """Images of several kinds streamed through two scratch buffers; the same kernel names asked again and again."""
+    shared = rng.sample(NAMES, rng.choice([1, 1, 2]))
+    steps = []
+    held = {}                                             # buffer -> (file or None, names that can be loaded, kinds)
+    for _ in range(rng.randint(4, 16 if big else 9)):
+        b = rng.choice([0, 0, 0, 1])
+        r = rng.random()
+        if r < 0.55 or b not in held:
+            if rng.random() < 0.2:
+                steps.append({'op': 'put', 'buf': b, 'path': rng.choice(shipped)})
+                held[b] = (None, None, None)
+            else:
+                f, info = rand_file(rng, force_names=shared, no_strip=rng.random() < 0.8)
+                steps.append({'op': 'put', 'buf': b, 'file': f, 'gap': rng.choice([0, 4, 8, 100])})
+                held[b] = (f, None if info['stripped'] else list(info['kinds']), info['kinds'])
+        elif r < 0.75:
+            f, names, kinds = held[b]
+            if kinds is None:
+                steps.append({'op': 'patch', 'buf': b, 'sym': '*', 'skip': -1, 'bytes': SENDPGM})
+            elif names and f is not None:
+                n = rng.choice(names)
+                skip = 256 if kinds[n] == 'v3' else 0
+                if kernel_size(f, n) >= skip + 4:
+                    steps.append({'op': 'patch', 'buf': b, 'sym': n, 'skip': skip,
+                                  'bytes': rng.choice([SENDPGM, SENDPGM, rand_bytes(rng, 4)])})
+                    held[b] = (None, names, kinds)        # content no longer the generated one (names unchanged)
+        elif r < 0.85:
+            steps.append({'op': 'scribble', 'k': -1})
+        else:
+            steps.append({'op': 'check', 'k': -rng.randint(1, 5)})
+        # loads of what the buffer holds now
+        f, names, kinds = held[b]
+        if kinds is None:                                 # a shipped object: the driver finds the names
+            steps.append({'op': 'loadall', 'buf': b})
+        elif names is None:                               # stripped image: any name gives all of .text
+            steps.append({'op': 'load', 'buf': b, 'name': rng.choice(['', shared[0]]), 'api': 'bytes'})
+        else:
+            for n in [x for x in shared if x in names] + ([''] if len(names) == 1 else []):
+                steps.append({'op': 'load', 'buf': b, 'name': n, 'api': rng.choice(['bytes', 'bytes', 'bytes', 'fs', 'elf'])})
+        steps.append({'op': 'check', 'k': -3})
+    return {'id': sid, 'session': steps}
+
+
+def shipped_session(paths, rng):
+    """Every shipped code object through ONE buffer, twice (forwards, then shuffled), with in-place patches."""
+    steps = []
+    order = list(paths) + rng.sample(paths, len(paths))
+    for i, p in enumerate(order):
+        steps.append({'op': 'put', 'buf': 0, 'path': p})
+        steps.append({'op': 'loadall', 'buf': 0})
+        if i % 7 == 3:
+            steps.append({'op': 'patch', 'buf': 0, 'sym': '*', 'skip': -1, 'bytes': SENDPGM})
+            steps.append({'op': 'loadall', 'buf': 0})
+        if i % 11 == 5:
+            steps.append({'op': 'scribble', 'k': -1})
+        steps.append({'op': 'check', 'k': -2})
+    return {'id': 'session/shipped', 'session': steps}
 
 # ------------------------------------------------------------------ binding self-test
 def corruptions():
@@ -459,6 +594,53 @@ def corruptions():
             ('flip_enable_flag', enable_flag)]
 
 
+def session_corruptions():
+    """Corruptions of a session trace: what a loader with a memory (or handing out shared objects) would log."""
+    def later_loads(recs):
+        # pairs (i, j): Load j comes after Load i, same buffer and name, different content version and different data
+        ls = [i for i, r in enumerate(recs) if r['e'] == 'Load' and 'k' in r and 'data' in r]
+        return [(i, j) for i in ls for j in ls if i < j and recs[i]['buf'] == recs[j]['buf'] and recs[i]['name'] == recs[j]['name']
+                and recs[i]['cv'] != recs[j]['cv'] and recs[i]['data'] != recs[j]['data']]
+
+    def stale_result(recs, rng):
+        ps = later_loads(recs)
+        if not ps:
+            return None
+        i, j = rng.choice(ps)
+        for k in ('data', 'sym', 'm', 'ver'):
+            recs[j][k] = recs[i][k]
+        return recs
+
+    def stale_code_only(recs, rng):
+        ps = later_loads(recs)
+        if not ps:
+            return None
+        i, j = rng.choice(ps)
+        recs[j]['data'] = recs[i]['data']
+        return recs
+
+    def result_changed_later(recs, rng):
+        idx = [i for i, r in enumerate(recs) if r['e'] == 'Still' and r['data']]
+        if not idx:
+            return None
+        r = recs[rng.choice(idx)]
+        r['data'][0] ^= 0xA5
+        return recs
+
+    def scribble_leaks(recs, rng):
+        # a Still line of a result takes the metadata of ANOTHER result (shared metadata object)
+        idx = [i for i, r in enumerate(recs) if r['e'] == 'Still']
+        for a in idx:
+            for b in idx:
+                if recs[a]['k'] != recs[b]['k'] and recs[a]['m'] != recs[b]['m']:
+                    recs[a]['m'] = recs[b]['m']
+                    return recs
+        return None
+
+    return [('second_load_returns_first_result', stale_result), ('second_load_returns_old_code', stale_code_only),
+            ('held_result_changes_later', result_changed_later), ('held_result_takes_other_metadata', scribble_leaks)]
+
+
 # ------------------------------------------------------------------ scenario export
 def states_of(path, pick):
     """Chosen states of a simulation file (parsed) and the `act` history of the whole behaviour."""
@@ -513,9 +695,16 @@ def model_check(ctx, thorough):
                          'LoadIsTruth but did not:\n' + neg.out[-1500:])
     ctx.log('MC_Hsaco_asimpl: LoadIsTruth violated as expected (descriptor offsets of the current tree)')
     ctx.cov['as_implemented_model_violates'] = 'LoadIsTruth'
+    r3 = ctx.tlc_expect_ok(['hsaco'], 'HsacoSession.tla', 'MC_HsacoSession.cfg', timeout=900)
+    ctx.log('MC_HsacoSession (histories: 2 reused buffers, 4 images, put/patch/load/scribble): %d distinct states, depth %d' % (r3.distinct, r3.depth))
+    neg2 = ctx.tlc(['hsaco'], 'HsacoSession.tla', 'MC_HsacoSession_memo.cfg', timeout=600, kind='mc_expected_violation')
+    if 'FreshParse' not in neg2.violated:
+        raise vlib.Infra('the memoising-loader model was expected to violate FreshParse but did not:\n' + neg2.out[-1500:])
+    ctx.cov['memoising_loader_model_violates'] = 'FreshParse'
     if thorough:
-        for cfg in ('MC_Hsaco_noise_big.cfg', 'MC_Hsaco_big.cfg', 'MC_Hsaco_three.cfg'):
-            rb = ctx.tlc_expect_ok(['hsaco'], 'MC_Hsaco.tla', cfg, workers=min(vlib.NCPU, 8), timeout=3000, heap='8g')
+        for mod, cfg in (('MC_Hsaco.tla', 'MC_Hsaco_noise_big.cfg'), ('MC_Hsaco.tla', 'MC_Hsaco_big.cfg'), ('MC_Hsaco.tla', 'MC_Hsaco_three.cfg'),
+                         ('HsacoSession.tla', 'MC_HsacoSession_big.cfg')):
+            rb = ctx.tlc_expect_ok(['hsaco'], mod, cfg, workers=min(vlib.NCPU, 8), timeout=3000, heap='8g')
             ctx.log('%s: %d distinct states, depth %d' % (cfg, rb.distinct, rb.depth))
         ctx.cov['exhaustive'] = True
 
@@ -609,6 +798,39 @@ def bind(ctx, drv, rng, thorough):
     account(ctx, t3, seen, counters)
     traces.append(t3)
 
+    # 4b. histories: many loads in ONE process through REUSED image buffers (new image copied over the old one,
+    #     image patched in place, same kernel name / "" asked again, results overwritten by their holders)
+    nsess = 120 if thorough else 30
+    rs = ctx.tlc(['hsaco'], 'HsacoSession.tla', 'HsacoSessionScen.cfg', workers=1, timeout=900,
+                 simulate='file=beh,num=%d' % nsess, depth=14, seed=ctx.seed, kind='simulate')
+    if rs.violated or not rs.completed:
+        raise vlib.Infra('simulation of HsacoSession failed: %s\n%s' % (rs.violated, rs.out[-1500:]))
+    sjobs, ssamples = sessions_from_behaviours(ctx, rs, rng)
+    if len(sjobs) < nsess // 2:
+        raise vlib.Infra('only %d sessions from %d behaviours of HsacoSession' % (len(sjobs), nsess))
+    paths = [j['path'] for j in sj]
+    nrs = 90 if thorough else 22
+    sjobs += [random_session(rng, 'session/rand/%d/%d' % (ctx.seed, i), paths, big=thorough) for i in range(nrs)]
+    sjobs.append(shipped_session(paths, rng))
+    t4, stats4 = run_jobs(ctx, drv, sjobs, 'sessions')
+    nchk = check_materialisation(t4, sjobs)
+    if stats4.get('fatals'):
+        ctx.notes.append('%d loader exits inside sessions (each is judged as a Fatal line)' % stats4['fatals'])
+    ctx.sample({'TLC_session_steps': ssamples[0]})
+    judge(ctx, t4, 'sessions')
+    account(ctx, t4, seen, counters)
+    traces.append(t4)
+    ctx.log('sessions through reused buffers: %d from TLC behaviours, %d random, 1 over all %d shipped files twice '
+            '(%d buffer images re-read identical to the model\'s): %s; %d reloads of a name after the buffer changed, '
+            '%d results re-examined, %d scribbled' % (len(sjobs) - nrs - 1, nrs, len(paths), nchk, stats4,
+                                                     counters.get('reloads_after_change', 0), counters.get('Still', 0),
+                                                     counters.get('Scribble', 0)))
+    if counters.get('reloads_after_change', 0) < 50:
+        raise vlib.Infra('sessions reloaded a name from a changed buffer only %d times' % counters.get('reloads_after_change', 0))
+    ctx.cov.update({'sessions': len(sjobs), 'reloads_after_buffer_changed': counters.get('reloads_after_change', 0),
+                    'results_reexamined': counters.get('Still', 0), 'results_scribbled': counters.get('Scribble', 0),
+                    'buffer_rewrites': counters.get('buffer_rewrites', 0)})
+
     for t in traces:
         for line in open(t):
             if '"e":"Load"' in line[:200] or '"Load"' in line[:40]:
@@ -626,6 +848,9 @@ def bind(ctx, drv, rng, thorough):
         ctx.notes.append('binding self-test skipped: the traces of this run were not accepted')
     else:
         common.selftest_binding(ctx, TSPEC, t2, corruptions())
+        first = ctx.cov.get('binding_selftest', [])
+        common.selftest_binding(ctx, TSPEC, t4, session_corruptions())
+        ctx.cov['binding_selftest'] = first + ctx.cov.get('binding_selftest', [])
     ctx.assumptions += ['debug/elf reads section and symbol tables correctly (the loader and the summariser both use it; '
                         'for written objects the summary is compared with the abstract file they were written from)',
                         'well-formed code objects: one .text, unique kernel names, one 64-byte .kd symbol per kernel, '
@@ -635,7 +860,28 @@ def bind(ctx, drv, rng, thorough):
                         'indistinguishable from a V2/V3 kernel in the file and is excluded']
 
 
+def session_from_trace(recs):
+    steps = []
+    for r in recs:
+        e = r.get('e')
+        if e == 'File':
+            st = dict(r['step'])
+            if st['op'] == 'put' and 'path' not in st:
+                st['file'] = {'symtab': r['symtab'], 'secs': [x for x in r['secs'] if x['n'] not in ('.symtab', '.strtab', '.shstrtab')],
+                              'syms': [dict(x, t=0) for x in r['syms']]}
+            steps.append(st)
+        elif e in ('Load', 'Fatal', 'Panic'):
+            steps.append({'op': 'load', 'buf': r.get('buf', 0), 'name': r['name'], 'api': r.get('api', 'bytes')})
+        elif e == 'Still':
+            steps.append({'op': 'check', 'k': r['k']})
+        elif e == 'Scribble':
+            steps.append({'op': 'scribble', 'k': r['k']})
+    return {'id': recs[0].get('id', 'replay'), 'session': steps}
+
+
 def job_from_trace(recs):
+    if recs and recs[0].get('session'):
+        return session_from_trace(recs)
     frec = next(r for r in recs if r.get('e') == 'File')
     loads = [{'name': r['name'], 'api': r.get('api', 'bytes')} for r in recs if r.get('e') in ('Load', 'Fatal', 'Panic')]
     if frec.get('path'):
